@@ -796,7 +796,10 @@ func c14GenFloatString(r *Rng) []byte {
 			b = append(b, []byte(r.PickStr(c14IntBoundary))...)
 			e = -1
 		case 5:
-			e = -1 // no exponent digits
+			if r.Bool() { // 19..25 exponent digits
+				b = append(b, c14DigitsN(r, 19+r.Intn(7))...)
+			}
+			e = -1 // or no exponent digits
 		default:
 			e = r.Intn(30)
 		}
@@ -942,7 +945,11 @@ func c14ParseFloatGen(fn string) func(r *Rng, tier string, emit func(Case)) {
 			"18446744073709551615", "18446744073709551616", "1844674407370955161.5", "184467440737095516150", "0.18446744073709551616", "18446744073709551616e-5",
 			"1e22", "1e23", "1e37", "1e38", "1000000000000000e22", "1000000000000001e22", "9007199254740993", "1e-22", "1e-23", "123456789012345678e-22",
 			"1e308", "1e309", "1.797693134862315708e+308", "1.7976931348623157e308", "17976931348623157e292", "1e-323", "1e-324", "2e-324", "3e-324", "1e-308", "2.2250738585072014e-308", "4.9e-324", "17976931348623157e292", "17976931348623159e292",
-			"1e9223372036854775807", "1e-9223372036854775808", "1e9223372036854775808", "0.000001e9223372036854775807", "1000000e-9223372036854775808"} {
+			"1e9223372036854775807", "1e-9223372036854775808", "1e9223372036854775808", "0.000001e9223372036854775807", "1000000e-9223372036854775808",
+			"8.25e-9223372036854775807", "22915023670756279951e9223372036854775807", "1e99999999999999999999", "1e-99999999999999999999", "1e+18446744073709551616",
+			"1e1000000000000000000000000", "1.5e-1000000000000000000000000", "0e99999999999999999999", "0.0e-99999999999999999999", "1e999999999999999", "1e1000000000000000",
+			"1e1000000000000001", "1e-999999999999999", "1e-1000000000000000", "12.5e9999999999999999", "1e0000000000000000000000000000000000012", "1E-0000000000000000000000003",
+			"1e99999999999999999999x", "1e9999999999999999999.5", "1e-", "1e+", "1e+x"} {
 			emit(c14BytesCase(fn, []byte(s)))
 			emit(c14BytesCase(fn, []byte("-"+s)))
 		}
@@ -1033,9 +1040,49 @@ var c14ScParseDecimal = &Model{
 	Class:  c14FloatResClass,
 }
 
+// c14BigDecimalCases: (f, dec) with |f|*10^dec at or beyond the int64 range (AppendDecimal's standard-library branch),
+// ordinary values with dec = -1 / 17, the threshold 9e18 and 2^63 for every dec, and exact ties of the half-even rounding.
+func c14BigDecimalCases(emit func(f float64, dec int)) {
+	for _, f := range []float64{123.456, -123.456, 90, 89.99999999999999, 90.00000000000001, 92.23372036854775, 92.23372036854776, 92.23372036854777, 100, 1234.5, 1e6, 0.5, 1e300, -1e300, 9.3e18, 9.2e18, 9e18, 8.999999999999999e18, math.MaxFloat64, 1 << 53, 1<<53 + 2} {
+		for _, d := range []int{-1, 0, 1, 5, 15, 16, 17, 18} {
+			emit(f, d)
+		}
+	}
+	for d := 0; d <= 17; d++ {
+		for _, t := range []float64{9e18, 9223372036854775808.0} {
+			f := t / math.Pow10(d)
+			for k := 0; k < 3; k++ {
+				emit(f, d)
+				emit(-f, d)
+				emit(math.Nextafter(f, 0), d)
+				f = math.Nextafter(f, math.Inf(1))
+			}
+		}
+	}
+	for k := 7; k <= 17; k++ { // fraction with k binary digits ends in ...5 at decimal k: a tie at dec = k-1
+		for j := 0; j < 6; j++ {
+			ip := math.Ldexp(1, 52-k) + float64(j)
+			f := ip + float64(2*j+1)/math.Ldexp(1, k)
+			emit(f, k-1)
+			emit(-f, k-1)
+			emit(f, k-2)
+			emit(f, k)
+		}
+	}
+}
+
 func c14AppendFloatGen(fn string, lo, hi int) func(r *Rng, tier string, emit func(Case)) {
 	return func(r *Rng, tier string, emit func(Case)) {
-		for _, f := range c14FloatValues {
+		c14BigDecimalCases(func(f float64, dec int) { emit(c14FloatCase(fn, f, dec, nil, nil)) })
+		for i, f := range c14FloatValues {
+			if fn == "sc_appenddecimal" && math.Abs(f) >= 1e25 && !math.IsInf(f, 0) {
+				// hundreds of digits through the model's exact decimal expansion: a thinner sample
+				emit(c14FloatCase(fn, f, i%3*9-1, nil, nil))
+				if i%16 == 0 {
+					emit(c14FloatCase(fn, -f, 17, []byte("x"), bytes.Repeat([]byte{'#'}, 30)))
+				}
+				continue
+			}
 			for p := lo; p <= hi; p++ {
 				emit(c14FloatCase(fn, f, p, nil, nil))
 			}
@@ -1247,7 +1294,7 @@ func c14RelDist(got float64, want *big.Float) float64 {
 
 func c14ParseFloatOracle(r *Rng, tier string, rep *Report) {
 	once := &c14ClassOnce{seen: map[string]bool{}}
-	lim64 := new(big.Int).Sub(new(big.Int).Lsh(big.NewInt(1), 63), big.NewInt(1000000))
+	lim15 := new(big.Int).Exp(big.NewInt(10), big.NewInt(15), nil)
 	check := func(b []byte, decimal bool) {
 		name, fn := "ParseFloat", strconv.ParseFloat
 		if decimal {
@@ -1263,10 +1310,12 @@ func c14ParseFloatOracle(r *Rng, tier string, rep *Report) {
 		class := ""
 		absExp := new(big.Int).Abs(exp)
 		switch {
-		case absExp.Cmp(lim64) >= 0:
-			class = "exp64" // the exponent's magnitude reaches the int64 limit
-		case absExp.Cmp(big.NewInt(308)) > 0 || nFrac > 308 || nInt > 308:
-			class = "extreme" // a decimal exponent or digit count beyond 308: outside math.Pow10's normal range
+		case nFrac > 300 || nInt > 300:
+			class = "extreme" // a digit count beyond 300: outside math.Pow10's normal range
+		case absExp.Cmp(lim15) >= 0:
+			class = "exp64" // an exponent at or beyond the saturation bound 1e15 (repaired by 7fd1303: must pass)
+		case absExp.Cmp(big.NewInt(308)) > 0:
+			class = "extreme" // a decimal exponent beyond 308: outside math.Pow10's normal range
 		}
 		var f float64
 		var n int
@@ -1457,7 +1506,16 @@ func c14AppendOracle(r *Rng, tier string, rep *Report) {
 		absScaled := new(big.Float).Abs(scaled)
 		class, bucket := "", "AppendDecimal/int64"
 		if absScaled.Cmp(lim63) >= 0 {
-			class, bucket = "int64-overflow", "AppendDecimal/int64-overflow" // |f| * 10^dec does not fit int64
+			bucket = "AppendDecimal/int64-overflow" // |f| * 10^dec does not fit int64: standard-library branch (2eb440d), must pass
+			// there the output is the exact value rounded half-even at d decimals, trailing zeros removed
+			want := []byte(c14BigF(f).Text('f', d))
+			if d > 0 {
+				want = bytes.TrimRight(want, "0")
+				want = bytes.TrimSuffix(want, []byte("."))
+			}
+			if !bytes.Equal(body, want) {
+				once.violate(rep, "AppendDecimal-value", "", in, fmt.Sprintf("AppendDecimal(%v, %d) = %q, the exact value rounded half-even at %d decimals is %q", f, dec, body, d, want), rp)
+			}
 		}
 		bad := func(symptom, desc string) { once.violate(rep, "AppendDecimal-"+symptom, class, in, desc, rp) }
 		defer rep.Eval("d:"+in, true, bucket)
@@ -1600,6 +1658,10 @@ func c14AppendOracle(r *Rng, tier string, rep *Report) {
 	checkFloat(123, 1, nil, nil)
 	checkFloat(9.56, 2, nil, nil)
 	checkFloat(0.5, 0, nil, nil)
+	c14BigDecimalCases(func(f float64, dec int) {
+		checkDecimal(f, dec, nil, nil)
+		checkDecimal(f, dec, []byte("ab"), bytes.Repeat([]byte{'0'}, 40))
+	})
 	for _, f := range c14FloatValues {
 		for p := -1; p <= 18; p++ {
 			checkDecimal(f, p, nil, nil)
